@@ -569,7 +569,7 @@ Lemma valid_near c (st : pstate) (cs : list pcand) : valid_batch c st cs = true 
 Proof.
   unfold valid_batch. intros H. apply andb_true_iff in H. destruct H as [_ H].
   intros Hlc x Hx Hn. rewrite Hlc in H. simpl in H. rewrite forallb_forall in H.
-  specialize (H x Hx). rewrite Hn in H. simpl in H. unfold near_ok in H.
+  specialize (H x Hx). rewrite Hn in H. simpl in H. unfold near_ok, all_ge in H.
   apply andb_true_iff in H. destruct H as [H _]. apply Nat.ltb_lt in H. exact H.
 Qed.
 
@@ -585,7 +585,7 @@ Lemma valid_near_min c (st : pstate) (cs : list pcand) x : valid_batch c st cs =
 Proof.
   unfold valid_batch. intros H Hlc Hx Hn. apply andb_true_iff in H. destruct H as [_ H].
   rewrite Hlc in H. simpl in H. rewrite forallb_forall in H.
-  specialize (H x Hx). rewrite Hn in H. simpl in H. unfold near_ok in H.
+  specialize (H x Hx). rewrite Hn in H. simpl in H. unfold near_ok, all_ge in H.
   apply andb_true_iff in H. destruct H as [H1 H2]. apply Nat.ltb_lt in H1. split; auto.
   rewrite forallb_forall in H2. intros d Hd. apply Qle_bool_iff, H2, Hd.
 Qed.
